@@ -91,6 +91,45 @@ def _pick_pack(ck, tier):
         shutil.rmtree(root, ignore_errors=True)
 
 
+def _estimate(ck, tier):
+    """differential: the seeks utils.estimate_compression performs vs Compress.estimate (extracted)"""
+    import io
+    import os
+    import subprocess
+    import common
+    common.use_repo()
+    from disk_objectstore import utils
+    consts = ck.constants or {}
+    sample, maxs = consts.get('EST_SAMPLE_SIZE', 1024), consts.get('EST_MAX_SAMPLED', 131072)
+
+    class Rec(io.BytesIO):
+        def __init__(self, b):
+            super().__init__(b)
+            self.seeks = []
+
+        def seek(self, t, w=0):
+            r = super().seek(t, w)
+            self.seeks.append(self.tell())
+            return r
+    rnd = ck.rng
+    lines, got = [], []
+    sizes = [0, 1, 1023, 1024, 1025, 5000, 131071, 131072, 131073, 200000, 300001, 1048577]
+    for size in sizes:
+        for pos0 in sorted({0, size // 3, size}):
+            data = bytes(size) if rnd.random() < 0.5 else rnd.randbytes(size)
+            s = Rec(data)
+            s.seek(pos0)
+            s.seeks.clear()
+            utils.estimate_compression(s, size)
+            got.append(','.join(map(str, s.seeks)) + f'|{s.tell()}')
+            lines.append(f'estimate {size} {size} {sample} {maxs} {pos0}')
+            ck.count(('estimate', size, pos0), nontrivial=size > 0)
+    out = subprocess.run([os.path.join(common.OCAML, 'driver')], input='\n'.join(lines) + '\n', capture_output=True, text=True, timeout=300).stdout.splitlines()
+    bad = [(l, g[:60], m[:60]) for l, g, m in zip(lines, got, out) if g != m]
+    ck.obligation('correspondence: seek targets and final position of utils.estimate_compression == Compress.estimate (extracted), sizes straddling the sample window',
+                  not bad and len(out) == len(lines), str(bad[:3]), kind='correspondence')
+
+
 def _traces(names):
     def f(ck, tier):
         import scen
@@ -103,5 +142,5 @@ def _traces(names):
 import tracecheck  # noqa: E402
 
 EXTRA = {'C02': _traces(None), 'C03': _traces(None), 'C09': _traces(['add_dup', 'topack', 'topack_nh', 'topack_nh_rt0', 'topack_multi', 'import_same']),
-         'C10': _traces(['pack_clean', 'pack_auto', 'repack', 'repack_keep']), 'C11': _traces(['delete', 'repack', 'repack_keep']),
+         'C10': (lambda ck, tier: (_traces(['pack_clean', 'pack_auto', 'repack', 'repack_keep'])(ck, tier), _estimate(ck, tier))), 'C11': _traces(['delete', 'repack', 'repack_keep']),
          'C13': (lambda ck, tier: (_traces(tracecheck.NOREPACK_SCENARIOS)(ck, tier), _pick_pack(ck, tier))), 'C14': _traces(['import_same', 'import_diff', 'import_same_stream', 'import_diff_stream'])}
